@@ -551,7 +551,13 @@ static int sem_wait_common(sem_t* s, long long deadline)
   --v->count; me->deadline = -1;
   return 0;
 }
-extern "C" int vf_sem_wait(sem_t* s) { if(!rt.active || !self) return 0; return sem_wait_common(s, -1); }
+extern "C" int vf_sem_wait(sem_t* s)
+{
+  if(!rt.active || !self) return 0;
+  // environment deviation as in vf_sem_timedwait: interrupted by a signal handler while it would have been blocked
+  if(vf_config.spurious && getSem(s, "wait")->count == 0 && vf_env_choice(2) == 1) { vf_hit("eintr_delivered"); errno = EINTR; return -1; }
+  return sem_wait_common(s, -1);
+}
 extern "C" int vf_sem_timedwait(sem_t* s, const struct timespec* ts)
 {
   if(!rt.active || !self) return 0;
